@@ -4,7 +4,7 @@ from . import graphcommon as gc
 
 MODULE = "NadaVerif.Props.C09"
 TRANSLATORS = None
-THEOREMS = [f"NadaVerif.C09.{n}" for n in ("no_dead_ops", "nothing_missing_nothing_twice", "entries_are_store_records", "functions_once_and_present", "inputs_literals_once_and_present")]
+THEOREMS = [f"NadaVerif.C09.{n}" for n in ("no_dead_ops", "nothing_missing_nothing_twice", "entries_are_store_records", "functions_once_and_present", "inputs_literals_once_and_present")] + ["NadaVerif.C09.traced_nothing_missing"]
 
 
 def oracle(mir, rec):
